@@ -103,21 +103,43 @@ def plan(ctx):
     """(schema xml, std, mode) combinations"""
     out = []
     if ctx.quick:
-        out += [("vs_msg_le.xml", "17", "checked"), ("vs_msg_be.xml", "17", "checked"), ("vs_msg_be.xml", "20", "checked")]
+        out += [("vs_msg_le.xml", "17", "checked"), ("vs_msg_be.xml", "17", "checked"), ("vs_msg_be.xml", "20", "checked"), ("vs_hdr_c.xml", "17", "checked")]
     else:
-        for std in ("11", "14", "17", "20", "2b"):
+        for std in ("11", "14", "17", "20"):
             for x in ("vs_msg_le.xml", "vs_msg_be.xml"):
                 out.append((x, std, "checked"))
         out += [("vs_msg_le.xml", "17", "unchecked"), ("vs_msg_be.xml", "20", "unchecked")]
+        out += [(x, "17", "checked") for x in ("vs_dims.xml", "vs_data_le.xml", "vs_data_be.xml", "vs_hdr_a.xml", "vs_hdr_b.xml", "vs_hdr_c.xml", "vs_hdr_d.xml", "vs_hdr_e.xml")]
     return out
+
+
+def random_schemas(ctx, K=6):
+    """thorough tier: K schemas from the seeded grammar-based generator (VERIF_SEED)"""
+    import randschema
+    out = []
+    if ctx.quick and not os.environ.get("VERIF_RANDOM"): return out
+    for k in range(K):
+        pkg, xml = randschema.gen(ctx.seed, k)
+        path = ctx.slot.path("rnd", pkg + ".xml")
+        randschema.resolve_offsets(xml, M.Schema, path)
+        out.append(path)
+    return out
+
+
+def gen_any(ctx, xml):
+    if os.path.isabs(xml):
+        rc, out, inc = ctx.slot.generate(xml)
+        if rc != 0: raise P.EngineError("sbeppc rejected generated schema %s: %s" % (xml, out[-500:]))
+        return M.Schema(xml), inc
+    return hgen.gen_headers(ctx, xml)
 
 
 def build(ctx):
     hs = []
     G, D = 2, ctx.q(2, 3)
     ctx.assumptions = ["well-formed image: numInGroup <= %d per group, data length <= %d, wire blockLength == compiled blockLength (extension is C03); every byte of the image symbolic" % (G, D)]
-    for (xml, std, mode) in plan(ctx):
-        sch, inc = hgen.gen_headers(ctx, xml)
+    for (xml, std, mode) in plan(ctx) + [(x, "17", "checked") for x in random_schemas(ctx)]:
+        sch, inc = gen_any(ctx, xml)
         for msg in sch.messages:
             g = msggen.MG(sch, msg, G)
             u = ctx.lower("c02_%s_%s" % (sch.ns, msg.name), g.cpp_prelude() + g.cpp_getset(setters=False) + g.cpp_geom(mutators=False), std=std, mode=mode, incs=[inc])
